@@ -19,6 +19,8 @@ func streamEnc(t *testing.T, o *Out) {
 		if payload != "" {
 			toks = strings.Split(payload, " ")
 		}
+		// (the CLI command under test ends the process on some failures: leave the case behind)
+		o.Pre("enc", id, strings.TrimSpace(op+" "+payload))
 		impl, stat, nontrivial, err := runEncCase(op, toks)
 		if err != nil {
 			t.Fatalf("enc case %s (%s): %v", id, op, err)
